@@ -1093,7 +1093,10 @@ class PDFType3Font(PDFSimpleFont):
             matrix = (0.001, 0, 0, 0.001, 0, 0)
         self.matrix = matrix
         (_, self.descent, _, self.ascent) = self.bbox
-        (self.hscale, self.vscale) = apply_matrix_norm(self.matrix, (1, 1))
+        # A horizontal glyph-space displacement (w, 0) becomes (a * w, b * w) in
+        # text space; a vertical one (0, h) becomes (c * h, d * h).
+        (self.hscale, _) = apply_matrix_norm(self.matrix, (1, 0))
+        (_, self.vscale) = apply_matrix_norm(self.matrix, (0, 1))
 
     def __repr__(self) -> str:
         return "<PDFType3Font>"
